@@ -16,7 +16,9 @@
         walk itself cannot fail)
      5  a weakly referenced owner / observing object was still alive after del + gc.collect()
      6  a change raised
-     7  (case level, code 7) the pool objects were kept alive by the registrations *)
+     7  (case level, code 7) the pool objects were kept alive by the registrations
+     8  every registration of ONE handler has been matched by a removal (whatever other handlers still have
+        registered), the handler was not present initially, but a notifier of it is still on some list *)
 From Coq Require Import List Arith Bool PeanoNat.
 From TV Require Import C09.Model.
 Import ListNotations.
@@ -129,6 +131,9 @@ Definition key_in_snap (k : key) (s : snap) : bool :=
 Definition hd_in_snap (hd : nat) (s : snap) : bool :=
   existsb (fun p => existsb (fun n => match n with NUser k _ | NMaint _ _ k => Nat.eqb (k_handler k) hd
                                           | NForeign _ => false end) (snd p)) s.
+(* a notifier of handler k on a list of a live pool object, in the snapshot as it is now *)
+Definition key_on_some_list (univ : list obsv) (dobj : list oid) (k : key) (cur : snap) : bool :=
+  existsb (fun o => negb (memb (fst o) dobj) && existsb (key_in_notifier k) (snap_get cur o)) univ.
 Definition chk (c : nat) (b : bool) : list nat := if b then [] else [c].
 Definition count_nat (k : nat) (l : list nat) : nat := length (filter (Nat.eqb k) l).
 Fixpoint dedup_keys (l : list key) : list key :=
@@ -152,7 +157,9 @@ Section Law.
         let s : sig := (x, hd, dp, gs) in
         let L' := if is_none (i_out ob) then mkL (s :: regs L) (unregs L) else L in
         (chk 1 (is_none (i_out ob) || snap_same univ dobj prev cur)
-         ++ chk 2 (negb (balanced L') || snap_same univ dobj init cur),
+         ++ chk 2 (negb (balanced L') || snap_same univ dobj init cur)
+         ++ chk 8 (forallb (fun k => negb (key_clear L' k && negb (key_in_snap k init))
+                                     || negb (key_on_some_list univ dobj k cur)) (keys_of L')),
          L', dh, dobj)
     | Unregister x hd dp gs =>
         let s : sig := (x, hd, dp, gs) in
@@ -160,6 +167,8 @@ Section Law.
         let L' := if is_none (i_out ob) then mkL (regs L) (s :: unregs L) else L in
         (chk 1 (is_none (i_out ob) || snap_same univ dobj prev cur)
          ++ chk 2 (negb (balanced L') || snap_same univ dobj init cur)
+         ++ chk 8 (forallb (fun k => negb (key_clear L' k && negb (key_in_snap k init))
+                                     || negb (key_on_some_list univ dobj k cur)) (keys_of L'))
          ++ chk 4 (negb (key_clear L k && negb (key_in_snap k init) && l_touches h gs x)
                    || match i_out ob with
                       | None => false
